@@ -22,12 +22,7 @@ func sha1Chains(x *mon.Ctx) {
 	x.Note("GODEBUG=%s", os.Getenv("GODEBUG"))
 	n := x.Scale(24, 240)
 	for i := 0; i < n; i++ {
-		c := x.Begin("SHA-1 certificate chain #%d", i)
-		if c == nil {
-			continue
-		}
-		seedLibraryRand(c, x)
-		s := signedSpec{api: "pkcs7", n: sweepLens[c.R.Intn(len(sweepLens))], vpath: []string{"chain", "chainAt"}[i%2]}
+		s := signedSpec{api: "pkcs7", n: sweepLens[i%len(sweepLens)], vpath: []string{"chain", "chainAt"}[i%2]}
 		var sg signerSpec
 		var alg x509.SignatureAlgorithm
 		switch i % 4 {
@@ -43,8 +38,12 @@ func sha1Chains(x *mon.Ctx) {
 		sg.noAttr = (i/4)%3 == 1
 		s.detached = (i/4)%3 == 2
 		s.signers = []signerSpec{sg}
+		c := x.Begin("SHA-1 certificate chain #%d: certificate signature %v; %v", i, alg, s)
+		if c == nil {
+			continue
+		}
+		seedLibraryRand(c, x)
 		c.Class("sha1/%s/certsig=%v", classOfSigned(s), alg)
-		c.Detail("spec", s.String())
 		b, err := buildSignedWith(c, w, s, func(int) eeOpt { return eeOpt{sigAlg: alg} })
 		if err != nil {
 			if !c.Failed() {
